@@ -53,7 +53,7 @@ var specs = map[string]*propSpec{
 	"C13": {
 		ID: "C13",
 		Rule: "part 1 (walked completely, as a workload): every call sequence up to depth 3 (quick) / 4 (thorough) over the alphabet {AddWarrior(w0|w1|w2), SpawnWarrior(i,off) i in -1..count+1, off in {0,M-1,M,2M+3}, " +
-			"RunCycle, Run, Reset, GetWarrior(i), GetMem(2M+3)} on a core of 5; part 2: random histories of 3..40 calls (M 5..8, P 1..3, C in {1,2,3,5,40}, two extra random warriors, some longer than the core; offsets and GetMem addresses also near 2^32, 2^63 and 2^64-1) biased toward Reset, respawn and calls after decision, half of them steered by a private model so that live battles are mostly stepped; " +
+			"RunCycle, Run, Reset, GetWarrior(i), GetMem(2M+3)} on a core of 5; part 2: random histories of 3..40 calls (M 5..8, P 1..3, C in {1,2,3,5,40}, two extra random warriors, some longer than the core; offsets and GetMem addresses also near 2^32, 2^63 and 2^64-1) biased toward Reset, respawn and calls after decision, half of them steered by a private model so that live battles are mostly stepped; one random history in 1201 is a MARATHON of 1500..3000 steered calls on one simulator; " +
 			"after EVERY call the monitor compares return values/errors/nils, core, queues, NextPC, alive flags, counters and the internal invariants with the reference API state machine; Run() executes under a CPU-time progress monitor; " +
 			"half of the random histories are extended to the relational check (prefix; Reset; respawn; tail) vs (fresh; spawn; tail) compared call by call on two real simulators. " +
 			"non-trivial = history containing a call that cannot apply (bad index, running warrior, stepping/running a decided, empty or never-started battle); distinct by the sequence of call kinds",
